@@ -141,6 +141,7 @@ def make_prog(spec, i):
             threads.append(steps)
         threads.append([{"op": r.choice(["len", "call", "iter"]), "h": 1, "path": [], "args": []} for _ in range(2)])
         topo = "T2_missing"
+        atomic_reads = False  # the reads were just replaced by ones that iterate / convert the container
     prog = {"cls": info.name, "init": init, "roots": roots, "pre": pre, "threads": threads}
     if spec["mode"] == "ctx":
         prog["buffered"] = {"cap": None}
